@@ -115,7 +115,7 @@ def run(chk):
     samples = []
     for wi in range(60 if quick else 400):
         rng.seed("%d/c13-1/%d" % (chk.seed, wi))      # every world has its own stream: families do not disturb each other
-        sph = rng.random() < 0.45
+        sph = rng.random() < 0.45 and wi % 4 != 3
         wj, sph = any_world(rng, spherical=sph, lines=0.5, allow_mass_conserving=True)
         if wi % 4 == 3 and not sph:
             # a mass conserving slab with parameters at the ends of their ranges; the wedge above the slab top is part of
@@ -138,7 +138,7 @@ def run(chk):
                   "coupling depth": rng.choice([80e3, 0.0, 1e3]), "taper distance": rng.choice([100e3, 0.0, 1.0]),
                   "forearc cooling factor": rng.choice([0.0, 0.0, 1.0, 20.0, 1e-12]),
                   "min distance slab top": -3e5, "max distance slab top": 3e5}
-            if rng.random() < 0.5:
+            if (wi // 4) % 2 == 0:
                 # one boundary value at a time: a young plate, nominal parameters, forearc cooling switched off
                 mm.update({"spreading velocity": 0.04, "subducting velocity": 0.04, "coupling depth": 120e3, "taper distance": 50e3,
                            "forearc cooling factor": 0.0})
@@ -165,8 +165,17 @@ def run(chk):
             aimed_profile = []
         # degenerate but valid parameter values: zero-thickness features, depth surfaces that pinch out, cooling models
         # with parameters at the ends of their documented ranges
+        if wi % 6 == 2 and not any(f["model"] in ("continental plate", "oceanic plate", "mantle layer") for f in wj["features"]):
+            from wbgen import Gen
+            wj["features"].append(Gen(rng).area_feature("flat", sph, depth_arrays=0))
+        first_area = True
         for f in wj["features"]:
-            if f["model"] in ("continental plate", "oceanic plate", "mantle layer") and rng.random() < 0.3:
+            force = wi % 6 == 2 and first_area and f["model"] in ("continental plate", "oceanic plate", "mantle layer")
+            if force:
+                first_area = False
+                f["model"] = ["continental plate", "oceanic plate", "mantle layer"][(wi // 6) % 3]
+                f["temperature models"] = [m for m in f.get("temperature models", []) if m["model"] in ("uniform", "linear", "adiabatic")]
+            if f["model"] in ("continental plate", "oceanic plate", "mantle layer") and (force or rng.random() < 0.3):
                 tm = [m for m in f.get("temperature models", []) if m["model"] == "linear"]
                 if not tm:
                     f.setdefault("temperature models", []).append({"model": "linear", "max depth": 2e5, "top temperature": rng.choice([293.15, -1]),
@@ -181,8 +190,11 @@ def run(chk):
                     f["max depth"] = [[float(round(rng.uniform(5e4, 2e5)))], [0.0, [list(c[0]), list(c[1]), list(c[2])][:rng.randint(1, 3)]]]
             if f["model"] == "subducting plate":
                 for m in f.get("temperature models", []) + [m for sg in f["segments"] for m in sg.get("temperature models", [])]:
-                    if m.get("model") == "mass conserving" and rng.random() < 0.6:
-                        k = rng.choice(["forearc cooling factor", "taper distance", "coupling depth", "min distance slab top", "thermal conductivity"])
+                    if m.get("model") == "mass conserving" and wi % 4 == 3 and (wi // 4) % 2 == 0:
+                        continue        # the nominal young plate with forearc cooling switched off stays as it is
+                    if m.get("model") == "mass conserving" and (wi % 4 == 3 or rng.random() < 0.6):
+                        keys = ["forearc cooling factor", "taper distance", "coupling depth", "min distance slab top", "thermal conductivity"]
+                        k = keys[(wi // 8) % len(keys)] if wi % 4 == 3 else rng.choice(keys)
                         m[k] = rng.choice([0.0, 0.0, 1e-30, 1e30]) if k != "min distance slab top" else 0.0
         if wi % 6 == 1:
             # a slab or fault with uniform grains whose rotation matrices are rounded to a few decimals (not exactly
